@@ -23,7 +23,8 @@ Ltac dmatch H :=
 
 Definition on_route (s : Sim) (v : Vehicle) : Prop :=
   match v_state v with
-  | Repositioning r | ServicingTrip _ _ r => exists h, walk (v_geoid v) r = Some h
+  | Repositioning r => exists h, walk (v_geoid v) r = Some h
+  | ServicingTrip q _ r => walk (v_geoid v) r = Some (p_geoid (r_dest q))
   | DispatchTrip rid r =>
       exists h, walk (v_geoid v) r = Some h /\ forall q, find rid (requests s) = Some q -> r_disp q = Some (v_id v) -> h = r_geoid q
   | DispatchStation sid _ r => exists h x, walk (v_geoid v) r = Some h /\ find sid (stations s) = Some x /\ h = s_geoid x
@@ -39,11 +40,13 @@ Lemma arrived s v : on_route s v ->
   | DispatchStation sid _ [] => exists x, find sid (stations s) = Some x /\ v_geoid v = s_geoid x
   | DispatchBase bid [] => exists b, find bid (bases s) = Some b /\ v_geoid v = b_geoid b
   | DispatchTrip rid [] => forall q, find rid (requests s) = Some q -> r_disp q = Some (v_id v) -> v_geoid v = r_geoid q
+  | ServicingTrip q _ [] => v_geoid v = p_geoid (r_dest q)
   | _ => True
   end.
 Proof.
   unfold on_route. destruct (v_state v); auto; destruct route; auto.
   - intros (h & W & T) q F D. cbn in W. inv W. eauto.
+  - intro W. cbn in W. congruence.
   - intros (h & x & W & F & T). cbn in W. inv W. eauto.
   - intros (h & b & W & F & T). cbn in W. inv W. eauto.
 Qed.
@@ -148,7 +151,7 @@ Proof.
   rewrite V1 in Fv.
   unfold on_route. destruct Hst' as [E|E]; [|destruct (v_state w'); cbn in E; try discriminate E; exact Logic.I].
   assert (W : forall r, state_route nx = Some r -> exists h, walk (v_geoid w') r = Some h /\ forall dst, route_corr r (v_pos v) (Some dst) = true -> h = p_geoid dst).
-  { intros r Hr. destruct (Src r Hr) as (a & b & v0 & -> & F0 & Ga). rewrite Fv in F0. inv F0.
+  { intros r Hr. destruct (Src r Hr) as (a & b & v0 & -> & F0 & Ga & _). rewrite Fv in F0. inv F0.
     exists (p_geoid b). unfold v_geoid. rewrite Ep. fold (v_geoid v0). rewrite <- Ga. split; [apply router_ok|].
     intros dst C. apply (route_end_target (e_route env a b) (v_pos v0) dst); [unfold v_geoid in Ga; rewrite <- Ga; apply router_ok|exact C]. }
   rewrite E in *. destruct nx; auto; cbn in G.
@@ -161,7 +164,8 @@ Proof.
       * rewrite PM.gss in Fq. inv Fq. reflexivity.
       * rewrite PM.gso in Fq by exact Nk. unfold find in F0. assert (q = r) by congruence. subst q. reflexivity.
     + rewrite Fw in Fv2. inv Fv2. exfalso. eapply NG. rewrite E. eexists. reflexivity.
-  - destruct (W route eq_refl) as (h & Wk & _). eauto.
+  - destruct (Src route eq_refl) as (a & b & v0 & Er & F0 & Ga & Dq). rewrite Fv in F0. inv F0. rewrite (Dq _ _ eq_refl).
+    unfold v_geoid. rewrite Ep. fold (v_geoid v0). rewrite <- Ga. apply router_ok.
   - destruct (W route eq_refl) as (h & Wk & Tg). destruct G as (x & F0 & C0 & _).
     destruct Fr2 as [FS2 _]. destruct (FS2 _ _ F0) as (x' & F' & (_ & P & _)). exists h, x'. split; [exact Wk|]. split; [exact F'|].
     rewrite (Tg _ C0). unfold s_geoid. rewrite P. reflexivity.
@@ -190,7 +194,7 @@ Proof.
   intros Es Ei Sr Wk. unfold on_route. rewrite Es, Ei. destruct (v_state v); cbn in Sr; try discriminate Sr; inv Sr; cbn.
   - intros (h & W). eauto.
   - intros (h & W & T). eauto.
-  - intros (h & W). eauto.
+  - intros W. eauto.
   - intros (h & x & W & F & T). exists h, x. auto.
   - intros (h & b & W & F & T). exists h, b. auto.
 Qed.
